@@ -81,14 +81,14 @@ CHECKS["C23"] = dict(parts=[part("gateway-datagrams-wellformed", "gw", "TestC23G
 CHECKS["C24"] = dict(parts=[part("mqtt-valid", "gw", "TestC24", 4000, 250_000), part("slow-broker-stream", "gw", "TestC24Slow", 2000, 120_000)])
 META.update({
     "C13": dict(
-        text="Exploration: generated session prefixes (fresh, mid-connect, active with pending exchanges, asleep with/without pinger, awake, reconnected) crossed with every termination cause at drawn offsets around the poll interval; oracle: run returns within 100 ms + 1 ms of the cause on the virtual clock, the broker connection is closed, the client gets the expected number of DISCONNECTs, and a goroutine census right after the end finds no frame of the code under test. A second part runs sessions against a refusing broker address on real loopback sockets (dial failure). Prefixes include a broker that has stopped reading with a write to it pending (in-memory link with a write stall honouring write deadlines), sleep durations with a zero low or high byte, a client announcing a new sleep duration while asleep, and a client which is unreachable when the cause arrives (every write to it fails). Further causes: the client's transport closed by the peer (EOF), the broker's CONNACK arriving when the client has become unreachable; plain DISCONNECTs in both encodings; eager peers in a quarter of the cases.",
+        text="Exploration: generated session prefixes (fresh, mid-connect, active with pending exchanges, asleep with/without pinger, awake, reconnected) crossed with every termination cause at drawn offsets around the poll interval; oracle: run returns within 100 ms + 1 ms of the cause on the virtual clock, the broker connection is closed, the client gets the expected number of DISCONNECTs, and a goroutine census right after the end finds no frame of the code under test. A second part runs sessions against a refusing broker address on real loopback sockets (dial failure). Prefixes include a broker that has stopped reading with a write to it pending (in-memory link with a write stall honouring write deadlines), sleep durations with a zero low or high byte, a client announcing a new sleep duration while asleep, and a client which is unreachable when the cause arrives (every write to it fails). Further causes: the client's transport closed by the peer (EOF), the broker's CONNACK arriving when the client has become unreachable; plain DISCONNECTs in both encodings; eager peers in a quarter of the cases. Process-level part: the real binary with 1-8 connected clients gets SIGTERM/SIGINT; after it has exited every active client must have received exactly one DISCONNECT, every sleeping one none.",
         note=_GW_NOTE + " Liveness is decided up to the observation window (400 ms of virtual time after the cause); the dial-failure part uses real time and treats its own timeouts as inconclusive.",
         technique="stateful PBT (prefix x termination cause) on a virtual clock + goroutine census; fault injection (broker unreachable) on loopback"),
     "C14": dict(
         text="Exploration: the C13 generator; the monitor requires an MQTT DISCONNECT on the broker stream iff the client sent a plain DISCONNECT, after it, with nothing but EOF following. Additionally, anywhere in the history (also before the cause) an MQTT DISCONNECT without a preceding plain client DISCONNECT is a violation; prefixes include re-announced sleeps and sleep durations with a zero low or high byte. Further causes: transport EOF, CONNACK undeliverable to an unreachable client, a client DISCONNECT arriving after the shutdown began.",
         note=_GW_NOTE, technique="stateful PBT with an iff-monitor over the broker byte stream"),
     "C23": dict(
-        text="Exploration: generated histories biased to rarely taken send paths (zero keep-alive, awake CONNECT, refusals, exhaustion replies, wake-up flush, retransmissions, shutdown, broker payloads up to 70000 octets); every datagram the gateway sent is decoded strictly by the reference decoder and checked for direction, length field and size <= 8192.",
+        text="Exploration: generated histories biased to rarely taken send paths (zero keep-alive, awake CONNECT, refusals, exhaustion replies, wake-up flush, retransmissions, shutdown, broker payloads up to 70000 octets); every datagram the gateway sent is decoded strictly by the reference decoder and checked for direction, length field and size <= 8192. Broker publishes also carry topic names of 8180-65535 octets, client calls names of 8183-65535 octets (which cannot fit a datagram).",
         note=_GW_NOTE + " The client-library direction is checked by a second part once the client simulator exists.",
         technique="stateful PBT; oracle = strict reference decoder + direction table + size bound"),
     "C24": dict(
@@ -101,11 +101,11 @@ CHECKS["C12"] = dict(parts=[part("broker-keepalive-kept", "gw", "TestC12", 2000,
 CHECKS["C34"] = dict(parts=[part("vanished-clients-reaped", "gw", "TestC34", 2000, 100_000)])
 META.update({
     "C11": dict(
-        text="Exploration: generated sleep cycles (1-4 cycles x 1-3 wake-ups) with uniquely tagged broker publishes at drawn offsets around RetryDelay, including publishes injected at the same instant as the PINGREQ and between PINGRESP and the next wake-up; a client-state model per the project's specification interpretation judges silence while asleep, exactly-once in-order delivery in the wake-up flush followed by PINGRESP, and completeness once the client is active again. Racing variants include bursts of 2-8 publishes with the PINGREQ injected somewhere inside the burst; the order among the broker's messages is checked strictly (only the oldest owed message may be delivered), whichever flush a racing message lands in.",
+        text="Exploration: generated sleep cycles (1-4 cycles x 1-3 wake-ups) with uniquely tagged broker publishes at drawn offsets around RetryDelay, including publishes injected at the same instant as the PINGREQ and between PINGRESP and the next wake-up; a client-state model per the project's specification interpretation judges silence while asleep, exactly-once in-order delivery in the wake-up flush followed by PINGRESP, and completeness once the client is active again. Racing variants include bursts of 2-8 publishes with the PINGREQ injected somewhere inside the burst; the order among the broker's messages is checked strictly (only the oldest owed message may be delivered), whichever flush a racing message lands in. Before the first sleep, in a quarter of the cases, a PINGREQ whose PINGRESP the broker sends while the gateway writes its answer to the sleep announcement (step mq-at-snwrite); messages on topics which need a REGISTER must have been delivered by the time the client is active again.",
         note=_GW_NOTE + " Same-instant (racing) publishes run without a settling barrier so both receive loops really run concurrently; which flush they land in is not constrained.",
         technique="stateful PBT with a sleep-state reference model and tagged messages; virtual time; same-instant injection for races"),
     "C12": dict(
-        text="Exploration: generated timed histories over 6-20 keep-alive periods in which the client meets its own obligations (activity within K, wake-ups within D for D<K, =K, >K, >>K, re-announced sleeps, returns to active); the oracle measures, on the virtual clock, every gap between consecutive writes to the broker connection against 1.5 x K. The CONNECT which ends a sleep carries K, 0, 10K or K/2 in its Duration field (ignored for a sleeping client).",
+        text="Exploration: generated timed histories over 6-20 keep-alive periods in which the client meets its own obligations (activity within K, wake-ups within D for D<K, =K, >K, >>K, re-announced sleeps, returns to active); the oracle measures, on the virtual clock, every gap between consecutive writes to the broker connection against 1.5 x K. The CONNECT which ends a sleep carries K, 0, 10K or K/2 in its Duration field (ignored for a sleeping client). The client's activity includes REGISTER (answered by the gateway itself): the gap this causes is a known finding with a kind of its own.",
         note=_GW_NOTE, technique="PBT over obligation-meeting timed histories (constructed, not filtered); oracle = max-gap over virtual timestamps"),
     "C34": dict(
         text="Exploration: generated session prefixes after which the client is silent forever, against a broker that enforces the MQTT keep-alive and the missing-CONNECT timeout on the virtual clock; the oracle bounds the time from the client's last packet to the end of the session per state (connecting, active, asleep, woken, reconnected). In a third of the cases the vanished client is also unreachable (every write to it fails). States include a client which only ever sent a CONNECT the gateway refuses itself.",
